@@ -24,13 +24,17 @@ EXTENDS Naturals, Sequences, FiniteSets, TLC, Json
 
 CONSTANTS MAXOPS, OPNAMES, DEV_SendOnClosed
 
+(* calls that bring their own connection: DialAndSend(WithContext) of the Client, and the package-level helpers  *)
+(* mail.QuickSend (its own Client) and smtp.SendMail (kept from net/smtp), which dial real TCP by themselves     *)
+OwnOps == {"DialAndSend", "DialAndSendCtx", "QuickSend", "LegacySendMail"}
+
 InitSt == [shared |-> "none", alive |-> FALSE, replaced |-> 0]
 
 FaultsOf(op) == CASE op = "Dial" -> {"ok", "refused"}
                   [] op = "Send" -> {"ok", "gone", "p5"}
                   [] op = "Reset" -> {"ok", "gone"}
                   [] op = "Close" -> {"ok", "gone"}
-                  [] op = "DialAndSend" -> {"ok", "refused", "p5", "gone"}
+                  [] op \in OwnOps -> {"ok", "refused", "p5", "gone"}
                   [] OTHER -> {"ok"}
 
 Res(st, err, delivered, wire, noconn, closes) ==
@@ -58,7 +62,7 @@ Step(st0, op, f) ==
     [] op = "Close" ->
          IF st.shared # "open" THEN Res(st, FALSE, FALSE, "none", FALSE, "none")  \* nothing to close: nil
          ELSE Res([st EXCEPT !.shared = "closed", !.alive = FALSE], ~st.alive, FALSE, "shared", FALSE, "shared")
-    [] op = "DialAndSend" ->                                                    \* own connection, the shared one is untouched
+    [] op \in OwnOps ->                                                         \* own connection, the shared one is untouched
          IF f = "refused" THEN Res(st, TRUE, FALSE, "none", FALSE, "none")
          ELSE Res(st, f = "p5", f # "p5", "own", FALSE, "own")
     [] OTHER -> Res(st, FALSE, FALSE, "none", FALSE, "none")
